@@ -1,16 +1,174 @@
 package harness
 
+// Hostile reply shapes (C09): legal-but-hostile plugin behaviour. Every shape is chosen
+// from the scheduler-provided argument of the released call, so it is part of the schedule.
+
 import (
+	"fmt"
+
 	"github.com/conduitio/conduit-commons/opencdc"
 	"github.com/conduitio/conduit-connector-protocol/pconnector"
 	sdk "github.com/conduitio/conduit-processor-sdk"
+	"github.com/conduitio/conduit/pkg/foundation/cerrors"
 )
 
-// hostile reply shapes (C09). Filled in by the hostile family; nil = behave.
-func (w *World) hostileDstAcks(s *simDstStream, d decision) *pconnector.DestinationRunResponse {
-	return nil
-}
+var procShapes = []string{"more", "zero", "nil-entry", "mixed", "poschange", "posempty", "multi-degenerate", "nil-error", "multi-poschange", "more-multi", "all-nil"}
 
 func (w *World) hostileProcResult(p *simProc, recs []opencdc.Record, d decision) []sdk.ProcessedRecord {
-	return nil
+	pct := p.sys.cfg.Hostile
+	if pct <= 0 || len(recs) == 0 || (d.arg>>4)%100 >= pct {
+		return nil
+	}
+	shape := procShapes[(d.arg>>11)%len(procShapes)]
+	rev := p.settings["rev"]
+	ok := func(r opencdc.Record) sdk.ProcessedRecord { return sdk.SingleRecord(stamp(r, p.sys.cfg.ID, p.gen, rev)) }
+	var out []sdk.ProcessedRecord
+	switch shape {
+	case "more":
+		for _, r := range recs {
+			out = append(out, ok(r))
+		}
+		out = append(out, ok(recs[len(recs)-1]), ok(recs[0]))
+	case "zero":
+		out = []sdk.ProcessedRecord{}
+	case "nil-entry":
+		for i, r := range recs {
+			if i == len(recs)/2 {
+				out = append(out, nil)
+			} else {
+				out = append(out, ok(r))
+			}
+		}
+	case "all-nil":
+		out = make([]sdk.ProcessedRecord, len(recs))
+	case "mixed":
+		for i, r := range recs {
+			switch i % 4 {
+			case 0:
+				out = append(out, ok(r))
+			case 1:
+				out = append(out, sdk.FilterRecord{})
+			case 2:
+				out = append(out, sdk.ErrorRecord{Error: cerrors.Errorf("sim-hostile mixed error %d", i)})
+			default:
+				out = append(out, sdk.MultiRecord{p.piece(r, 0), p.piece(r, 1)})
+			}
+		}
+	case "poschange":
+		for i, r := range recs {
+			c := stamp(r, p.sys.cfg.ID, p.gen, rev)
+			if i == 0 {
+				c.Position = opencdc.Position("sim-changed-" + string(r.Position))
+			}
+			out = append(out, sdk.SingleRecord(c))
+		}
+	case "posempty":
+		for i, r := range recs {
+			c := stamp(r, p.sys.cfg.ID, p.gen, rev)
+			if i == len(recs)-1 {
+				c.Position = nil
+			}
+			out = append(out, sdk.SingleRecord(c))
+		}
+	case "multi-degenerate":
+		for i, r := range recs {
+			if i%2 == 0 {
+				out = append(out, sdk.MultiRecord{})
+			} else {
+				out = append(out, sdk.MultiRecord{p.piece(r, 0)})
+			}
+		}
+	case "nil-error":
+		for i, r := range recs {
+			if i == 0 {
+				out = append(out, sdk.ErrorRecord{})
+			} else {
+				out = append(out, ok(r))
+			}
+		}
+	case "multi-poschange":
+		for _, r := range recs {
+			a, b := p.piece(r, 0), p.piece(r, 1)
+			a.Position = opencdc.Position("sim-piece-a")
+			b.Position = nil
+			out = append(out, sdk.MultiRecord{a, b})
+		}
+	case "more-multi":
+		for _, r := range recs {
+			out = append(out, sdk.MultiRecord{p.piece(r, 0), p.piece(r, 1)})
+		}
+		out = append(out, sdk.MultiRecord{p.piece(recs[0], 2), p.piece(recs[0], 3)})
+	}
+	ids := make([]RecID, 0, len(recs))
+	for _, r := range recs {
+		id, _ := recIDOf(r)
+		ids = append(ids, id)
+	}
+	w.probe("hostile-proc-" + shape)
+	w.log(Event{Kind: "PROC_HOSTILE", Ent: p.sys.cfg.ID, Inc: p.inc, N: p.gen, IDs: ids, Note: fmt.Sprintf("%s in=%d out=%d", shape, len(recs), len(out))})
+	return out
+}
+
+var ackShapes = []string{"empty", "extra", "reversed", "unknown", "duplicate", "wrong-first"}
+
+func (w *World) hostileDstAcks(s *simDstStream, d decision) *pconnector.DestinationRunResponse {
+	sys, sess := s.p.sys, s.p.sess
+	pct := sys.cfg.HostilePct
+	if pct <= 0 || (d.arg>>4)%100 >= pct || len(sess.pending) == 0 {
+		return nil
+	}
+	shape := ackShapes[(d.arg>>11)%len(ackShapes)]
+	var acks []pconnector.DestinationRunResponseAck
+	pend := sess.pending
+	switch shape {
+	case "empty":
+		acks = []pconnector.DestinationRunResponseAck{}
+	case "extra":
+		for _, pw := range pend {
+			acks = append(acks, pconnector.DestinationRunResponseAck{Position: pw.pos})
+		}
+		acks = append(acks, pconnector.DestinationRunResponseAck{Position: opencdc.Position("sim-extra-ack")})
+	case "reversed":
+		for i := len(pend) - 1; i >= 0; i-- {
+			acks = append(acks, pconnector.DestinationRunResponseAck{Position: pend[i].pos})
+		}
+		if len(pend) == 1 {
+			acks[0].Position = opencdc.Position("sim-unknown-ack")
+		}
+	case "unknown":
+		acks = append(acks, pconnector.DestinationRunResponseAck{Position: opencdc.Position("sim-unknown-ack")})
+	case "duplicate":
+		acks = append(acks, pconnector.DestinationRunResponseAck{Position: pend[0].pos}, pconnector.DestinationRunResponseAck{Position: pend[0].pos})
+	case "wrong-first":
+		acks = append(acks, pconnector.DestinationRunResponseAck{Position: nil})
+	}
+	w.probe("hostile-ack-" + shape)
+	w.log(Event{Kind: "DST_HOSTILE", Ent: sys.cfg.ID, Inc: s.p.inc, Sess: sess.n, Note: fmt.Sprintf("%s pending=%d acks=%d", shape, len(pend), len(acks))})
+	// a positive ack that names a pending write is a confirmation of that write, in whatever
+	// order or company it arrives: record it as such (the oracle must not under-count them)
+	kind := "DST_ACK"
+	if sys.isDLQ {
+		kind = "DLQ_ACK"
+	}
+	for _, a := range acks {
+		for i, pw := range sess.pending {
+			if string(pw.pos) == string(a.Position) && a.Error == "" {
+				w.log(Event{Kind: kind, Ent: sys.cfg.ID, Inc: s.p.inc, Sess: sess.n, IDs: []RecID{pw.id}, Pos: []string{posHex(pw.pos)}, OK: true, Note: "hostile"})
+				sess.pending = append(sess.pending[:i:i], sess.pending[i+1:]...)
+				break
+			}
+		}
+	}
+	return &pconnector.DestinationRunResponse{Acks: acks}
+}
+
+// piece builds split piece j of r with its own identity (path extended by /hj).
+func (p *simProc) piece(r opencdc.Record, j int) opencdc.Record {
+	pr := stamp(r, p.sys.cfg.ID, p.gen, p.settings["rev"])
+	if id, ok := recIDOf(r); ok {
+		id.Path = fmt.Sprintf("%s/h%d", id.Path, j)
+		pr.Key = opencdc.RawData(id.marker())
+		pr.Payload.After = opencdc.RawData("payload " + id.marker())
+	}
+	return pr
 }
